@@ -224,6 +224,9 @@ class LLOneParser:
             current = stack.pop()
             if current == "$" and word[-1] == "$":
                 return parse_tree
+            if current == "$":
+                # Everything was derived but some input is left
+                raise NotParsableException
             if current.value == word[-1]:
                 word.pop()
             else:
